@@ -188,14 +188,25 @@ fn translate_head(
             context,
         ),
         SExp::Atom(l, v) => match prim_map.get(v) {
-            None => translate_head(
-                allocator,
-                runner,
-                prim_map,
-                l.clone(),
-                Rc::new(SExp::Integer(l.clone(), number_from_u8(v))),
-                context,
-            ),
+            None => {
+                // Only the shortest spelling of a number is that opcode: the
+                // consensus evaluator knows no operator 0x0004 or 0x0001.
+                let opcode = number_from_u8(v);
+                if u8_from_number(opcode.clone()) != *v {
+                    return Err(RunFailure::RunErr(
+                        l.clone(),
+                        format!("unimplemented operator {sexp}"),
+                    ));
+                }
+                translate_head(
+                    allocator,
+                    runner,
+                    prim_map,
+                    l.clone(),
+                    Rc::new(SExp::Integer(l.clone(), opcode)),
+                    context,
+                )
+            }
             Some(v) => Ok(Rc::new(v.with_loc(l.clone()))),
         },
         // A number in head position is an opcode already.  Looking its byte up
